@@ -9,7 +9,9 @@ def reg(id, claimed, cat, tech, text, note, ref):
     T[id] = dict(claimed=claimed, cat=cat, tech=tech, text=text, note=note, ref=ref)
 
 PBT = "property-based testing (proptest-driven generators over a choice vector, shrinking to a replay file)"
-reg("C01", False, "exploration", PBT + " against an independent ES reference model", "", "", "3 C01")
+reg("C01", True, "exploration", "property-based differential testing against an independent, spec-shaped ECMAScript reference model (esref), itself re-validated against a frozen V8 corpus",
+    "Random + themed search over valid patterns x haystacks x starts; find_from(..).next() must equal the reference model's first match including every capture. ~1.2M cases per quick run.",
+    "Trusted base: harness/src/esref (ES2025 22.2 + Annex B, written from the specification) and its Unicode data (V8/ICU Unicode-17 export, std). One recorded deviation (legacy \\u{...}) is attributed by quirk switch. Fuel hook.", "3 C01")
 reg("C02", True, "exploration", "property-based differential testing: backtracker vs PikeVM on generated patterns/haystacks/starts",
     "Random + themed search over patterns x haystacks x starts; any disagreement of the two executors on the same compiled program (both pipelines, UTF-8 and ASCII) is a violation. No absence claim beyond the explored cases.",
     "Trusted: the fuel hook (cuts runaway searches; cut cases are skipped and counted). The executors share the front end, so agreement is not correctness (that is C01).", "3 C02")
@@ -28,13 +30,21 @@ reg("C06", True, "exploration", "property-based testing of range validity / pani
 reg("C07", True, "exploration", "fuzz-style generated inputs (raw code points, token soup, mutated valid patterns, size-parametric adversarial families) with a crash supervisor and a deterministic compile-tick budget",
     "Random + structured search over compiler inputs; every compilation must return Ok/Err without panic, abort or exceeding A+B*n*log2(n+2) ticks; families run on a 2 MiB stack.",
     "Trusted: compile-tick hook (parser input primitives, term loop, optimizer fixpoints, emitter loop). A loop outside those is only seen by the wall-clock watchdog (INCONCLUSIVE).", "3 C07")
-reg("C08", False, "exploration", "", "", "", "3 C08")
+reg("C08", True, "exploration", "grammar-based fuzzing (token soup, cross-mode printing, mutation, curated early errors) against the reference model's parser; both directions",
+    "Random search over strings of syntax fragments under all 24 flag sets; regress must accept exactly what the ES grammar + early errors accept.",
+    "Trusted: esref's parser (agrees with V8 on 200k soup strings apart from modifiers, which V8 11.3 lacks) and the ES property-name list exported from V8/ICU. One recorded deviation (legacy \\u{...}).", "3 C08")
 reg("C09", True, "exploration", "property-based testing: iterator vs unfold of first-match, history invariants after every next()",
     "Random search over patterns biased to empty/adjacent/multi-byte matches; the iterator must equal the lastIndex unfold built from fresh first-match calls and satisfy the ordering/termination invariants; both executors, UTF-8 and ASCII.",
     "First-match correctness is C01's concern; this check trusts first-match as the unit. Trusted: fuel hook.", "3 C09")
-reg("C10", False, "exploration", "", "", "", "3 C10")
-reg("C11", False, "exploration", "", "", "", "3 C11")
-reg("C12", False, "exploration", "", "", "", "3 C12")
+reg("C10", True, "exploration", "exhaustive code-point sweeps (enumerated inputs) + property-based composition, against an independent Unicode-17 canonicalisation oracle",
+    "Exhaustive over all 1,112,064 scalar values for both rules: literals, backreference pairs, class blocks, class/property escapes under i/iu/iv; plus random composition judged by the reference model.",
+    "Oracle: std full upper-casing + the ES legacy rule; simple case folding classes exported from V8/ICU 78 (block-closure-verified). Hook: fold_code_point.", "3 C10")
+reg("C11", True, "exploration", "exhaustive enumeration: every ES property expression x all scalar values, rejected-name lists, candidate strings for properties of strings; oracle = V8/ICU Unicode-17 export",
+    "Exhaustive over the finite domain: 1714 accepted spellings (367 sets) x {\\p,\\P} x {u,v} swept over all scalar values; ~8.6k names that must be rejected; 8.8k candidate strings x 7 properties of strings.",
+    "Oracle data exported once from V8 11.3/ICU 78.2 (Unicode 17.0); ZWJ sequences / aliases outside every candidate source cannot be noticed.", "3 C11")
+reg("C12", True, "exploration", "property-based testing of class expressions against the reference model's set semantics + oracle-free set laws + exhaustive fixed-set sweeps",
+    "Random class-expression trees (legacy/u brackets, Annex B spellings, v-mode union/&&/--/nesting/\\q) probed with members, neighbours, case partners, decoys and strings; metamorphic set laws; exhaustive sweeps of \\d \\w \\s . \\b and their complements over all scalar values.",
+    "Trusted: esref class evaluator and Unicode data; properties of strings are C11's.", "3 C12")
 reg("C13", True, "exploration", "property-based differential testing: ASCII vs UTF-8 entry points on generated ASCII haystacks",
     "Random search; patterns may mention non-ASCII characters and fold partners; haystacks over all 128 bytes; every start; both executors and pipelines.",
     "Trusted: fuel hook.", "3 C13")
